@@ -205,9 +205,10 @@ Definition nil_nat (l : list nat) : bool := match l with [] => true | _ => false
 
 (* M1: an object that is Completed / Failed / Stopped in the image keeps its whole subtree *)
 Definition keep_act (a a' : act) : bool :=
-  if is_terminal (ac_st a) then nil_nat (act_diff a a') else Nat.eqb (ac_id a) (ac_id a').
+  if is_terminal (ac_st a) then nil_nat (act_diff a a') else true.
+(* a group that is not Running is untouched with its actions (a Running group is reset with them: no claim) *)
 Definition keep_chk (c c' : chk) : bool :=
-  if is_terminal (ck_st c) then nil_nat (chk_diff c c') else forall2b keep_act (ck_acts c) (ck_acts c').
+  if negb (status_eqb (ck_st c) Running) then nil_nat (chk_diff c c') else true.
 Definition keep_ochk (c c' : option chk) : bool :=
   match c, c' with None, None => true | Some x, Some y => keep_chk x y | _, _ => false end.
 Definition keep_seq (s s' : seq) : bool :=
@@ -304,7 +305,9 @@ Fixpoint calls_ok_blk (seqs1 seqs2 : list seq) (res : list nat) (calls : list (n
    disagreement = [code; monitor; location...] with code 1 = image afterwards differs, 2 = executed sequences or
    their plugin calls differ, 4 = entry point differs; monitor = 0 if every property monitor holds on what the
    implementation did, else the number of the first one that fails (1 keeps-finished, 2 fixAction spec,
-   3 re-execution of a durable success, 4 execution inside a finished object) *)
+   3 re-execution of a durable success, 4 execution inside a finished object);
+   [7; monitor] = model and code agree but a monitor is false (FixProofs.model_keeps_finished / model_meets_action_spec
+   exclude it for monitors 1 and 2) *)
 Definition check_blk (sc : script) (b b' : blk) (calls : list (nat * list nat)) : list nat :=
   let run := run_seq_script sc in
   let fb := fix_block run b in
@@ -313,6 +316,7 @@ Definition check_blk (sc : script) (b b' : blk) (calls : list (nat * list nat)) 
   | [] =>
       let seqs1 := map fix_seq (bk_seqs b) in
       if negb (calls_ok_blk seqs1 (map (resume_seq run) seqs1) (fb_resumed fb) calls) then [2; m] else
+      if negb (Nat.eqb m 0) then [7; m] else
       [0; 4; fix_block_branch run b]
   | l => 1 :: m :: l
   end.
@@ -340,6 +344,7 @@ Definition check_pln (sc : script) (p p' : pln) (calls : list (nat * nat * list 
   match pln_diff (fp_pln fp) p' with
   | [] =>
       if negb (calls_ok_pln run (pl_blocks p) (fp_resumed fp) calls) then [2; m] else
+      if negb (Nat.eqb m 0) then [7; m] else
       let br := fix_plan_branch run p in
       let subs := if Nat.leb 4 (Nat.modulo br 10) then block_branches run (pl_blocks p) else [] in
       match e with
@@ -353,14 +358,14 @@ Definition check_case (c : case) : list nat :=
   match c with
   | CAct a a' =>
       match act_diff (fix_action a) a' with
-      | [] => [0; 1; fix_action_branch a]
+      | [] => if spec_act a a' then [0; 1; fix_action_branch a] else [7; 2]
       | l => 1 :: (if spec_act a a' then 0 else 2) :: l
       end
   | CChk k k' => match chk_diff (fix_checks k) k' with
-                 | [] => [0; 2; fix_checks_branch k]
+                 | [] => if keep_chk k k' then [0; 2; fix_checks_branch k] else [7; 1]
                  | l => 1 :: (if keep_chk k k' then 0 else 1) :: l end
   | CSeq s s' => match seq_diff (fix_seq s) s' with
-                 | [] => [0; 3; fix_seq_branch s]
+                 | [] => if keep_seq s s' then [0; 3; fix_seq_branch s] else [7; 1]
                  | l => 1 :: (if keep_seq s s' then 0 else 1) :: l end
   | CBlk sc b b' calls => check_blk sc b b' calls
   | CPln sc p p' calls e => check_pln sc p p' calls e
